@@ -129,6 +129,63 @@ NEUTRAL = [
     dict(id="N17-backlog-loop-as-loop-match", file=ST + "write_manager/write_behind.rs",
          edits=[("        while let Some(top) = pending_commits.peek() {\n            if top.write_buffer.epoch == current_batch.expected_epoch {",
                  "        while let Some(top) = pending_commits.peek() {\n            if current_batch.expected_epoch == top.write_buffer.epoch {")]),
+    dict(id="N18-repair-flag-or-assigned", file=CG + "repair.rs",
+         edits=[("""                                cleaned_edges.append(&mut edges);
+
+                                if repair_tfc_needed {
+                                    repair_transitive_firewall_callees = true;
+                                }""", """                                cleaned_edges.extend(edges.drain(..));
+
+                                repair_transitive_firewall_callees |=
+                                    repair_tfc_needed;""")]),
+    dict(id="N19-tfc-observe-as-if-chain", file=CG + "computing.rs",
+         edits=[("""        match callee_kind {
+            QueryKind::Input
+            | QueryKind::Executable(ExecutionStyle::ExternalInput) => {
+                // input queries do not contribute to tfc archetype
+            }
+
+            QueryKind::Executable(
+                ExecutionStyle::Normal | ExecutionStyle::Projection,
+            ) => {
+                for q in
+                    callee_info.transitive_firewall_callees().iter().copied()
+                {
+                    let _ = self.tfc.insert_sync(q);
+                }
+            }
+            QueryKind::Executable(ExecutionStyle::Firewall) => {
+                let _ = self.tfc.insert_sync(callee_id);
+            }
+        }""", """        if let QueryKind::Executable(ExecutionStyle::Firewall) = callee_kind {
+            let _ = self.tfc.insert_sync(callee_id);
+        } else if let QueryKind::Executable(
+            ExecutionStyle::Normal | ExecutionStyle::Projection,
+        ) = callee_kind
+        {
+            for q in callee_info.transitive_firewall_callees().iter().copied() {
+                let _ = self.tfc.insert_sync(q);
+            }
+        }""")]),
+    dict(id="N20-check-callee-early-continue-style", file=CG + "repair.rs",
+         edits=[("""            if !kind.is_firewall() {
+                let tfc_fingerprint_diff = callee_node_info""", """            let callee_is_firewall = kind.is_firewall();
+            if !callee_is_firewall {
+                let tfc_fingerprint_diff = callee_node_info""")]),
+    dict(id="N21-abort-callee-order-first", file=CG + "computing.rs",
+         edits=[("""        assert!(self.callee_info.callee_queries.remove_sync(callee).is_some());
+
+        let mut callee_order = self.callee_info.callee_order.write();
+
+        callee_order.abort_callee(callee);""", """        self.callee_info.callee_order.write().abort_callee(callee);
+
+        assert!(self.callee_info.callee_queries.remove_sync(callee).is_some());""")]),
+    dict(id="N22-pedantic-flag-in-a-local", file=CG + "repair.rs",
+         edits=[("""                                query_computing.clone(),
+                                pedantic_repair,
+                            ),""", """                                query_computing.clone(),
+                                { let strict = pedantic_repair; strict },
+                            ),""")]),
 ]
 
 
